@@ -783,19 +783,23 @@ func dispatchReal(in []byte) (any, error) {
 		httpsOnly bool
 		redirects bool
 		timeout   time.Duration
+		sign      string // "" | a failingSign kind: the delivery's outbound signing cannot succeed
 	}{
-		{"ok", srv.URL + "/ok", false, false, time.Second},
-		{"e503", srv.URL + "/e503", false, false, time.Second},
-		{"e404", srv.URL + "/e404", false, false, time.Second},
-		{"e429", srv.URL + "/e429", false, false, time.Second},
-		{"e503_retry_after_90", srv.URL + "/e503ra90", false, false, time.Second},
-		{"e429_retry_after_3600", srv.URL + "/e429ra3600", false, false, time.Second},
-		{"e503_retry_after_date", srv.URL + "/e503radate", false, false, time.Second},
-		{"e500_retry_after_120", srv.URL + "/e500ra", false, false, time.Second},
-		{"redirect_not_followed_302", srv.URL + "/redir", false, false, time.Second},
-		{"hang", srv.URL + "/hang", false, false, 60 * time.Millisecond},
-		{"refused", deadURL, false, false, time.Second},
-		{"policy_https_only", srv.URL + "/ok", true, false, time.Second},
+		{"ok", srv.URL + "/ok", false, false, time.Second, ""},
+		{"e503", srv.URL + "/e503", false, false, time.Second, ""},
+		{"e404", srv.URL + "/e404", false, false, time.Second, ""},
+		{"e429", srv.URL + "/e429", false, false, time.Second, ""},
+		{"e503_retry_after_90", srv.URL + "/e503ra90", false, false, time.Second, ""},
+		{"e429_retry_after_3600", srv.URL + "/e429ra3600", false, false, time.Second, ""},
+		{"e503_retry_after_date", srv.URL + "/e503radate", false, false, time.Second, ""},
+		{"e500_retry_after_120", srv.URL + "/e500ra", false, false, time.Second, ""},
+		{"redirect_not_followed_302", srv.URL + "/redir", false, false, time.Second, ""},
+		{"hang", srv.URL + "/hang", false, false, 60 * time.Millisecond, ""},
+		{"refused", deadURL, false, false, time.Second, ""},
+		{"policy_https_only", srv.URL + "/ok", true, false, time.Second, ""},
+		// the policy denies the target AND the delivery could not be signed either: the denial decides (one attempt, policy_denied)
+		{"policy_https_only_unloadable_signing_secret", srv.URL + "/ok", true, false, time.Second, "missing-ref"},
+		{"policy_https_only_no_valid_secret_version", srv.URL + "/ok", true, false, time.Second, "expired"},
 	}
 	for _, c := range cases {
 		for _, attempt := range []int{1, req.Max, req.Max + 1} {
@@ -819,6 +823,9 @@ func dispatchReal(in []byte) (any, error) {
 			hd := dispatcher.NewHTTPDeliverer(&http.Client{}, dispatcher.EgressPolicy{HTTPSOnly: c.httpsOnly, Redirects: c.redirects})
 			d := &dispatcher.PushDispatcher{Store: store, Deliverer: hd}
 			tcfg := dispatcher.TargetConfig{URL: c.url, Timeout: c.timeout, Retry: dispatcher.RetryConfig{Type: "exponential", Max: req.Max, Base: time.Second, Cap: time.Minute}}
+			if c.sign != "" {
+				tcfg.SignHMAC = failingSign(c.sign)
+			}
 			act := d.VerifClassifyAndApply(c06Quiet, env, tcfg)
 			r := rc{Name: c.name, Attempt: attempt, Action: act.Kind, Reason: act.Reason}
 			if m, ok := c06Lookup(store, "/r", id); ok {
